@@ -7,6 +7,7 @@ package main
 import (
 	"encoding/json"
 	"fmt"
+	"os"
 	"sort"
 	"strings"
 
@@ -355,8 +356,14 @@ func buildSetup() *Setup {
 	bs.End()
 	n.Close()
 	s.Base = readImage(dir)
-	// the continuous node: inserts and stabilises one block at a time, never stops
-	n = node.Reopen(dir, deputies, observer)
+	os.RemoveAll(dir)
+	// the continuous node: created from nothing, inserts and stabilises one block at a time, never
+	// stops and is never reopened (so that it does not depend on the recovery code under test)
+	n = node.NewNode(core.ScratchDir("c08ref"), deputies, observer)
+	if n.BC.Genesis().Hash() != blocks[0].Hash() {
+		panic("harness: genesis differs between factory and the continuous node")
+	}
+	n.Quiesce()
 	s.Ref = append(s.Ref, observe(n.DB, n.BC.StableBlock(), watch))
 	for h := 1; h <= chainLen; h++ {
 		if err := n.BC.InsertBlock(w.wire(h, false)); err != nil {
